@@ -565,6 +565,79 @@ def run_sq_vsum(case):
     return R
 
 
+# ------------------------------------------------------------------------------ C13.scale
+def gen_scale(tier, seed):
+    """dense configurations with coarse bins: one particle has > 255 selected partners in a single bin and a bin total > 65 535"""
+    for d, L, n, w in ((3, [6.0, 6.5, 7.0], 1000, 1.5), (2, [6.0, 7.0], 900, 1.5)) + (((3, [6.0, 6.0, 6.0], 1400, 1.0),) if tier == "thorough" else ()):
+        for kind in ("bool", "float", "complex", "vector"):
+            for ppp in ([1] * d, [1] + [0] * (d - 1)):
+                yield {"part": "gr", "d": d, "L": L, "n": n, "w": w, "kind": kind, "ppp": ppp, "seed": seed, "cell": "orth"}
+
+
+def run_scale(case):
+    from PyMatterSim.static.gr import conditional_gr, gr
+    from mc.ref import scale as SC
+
+    R = Result()
+    d, n, w, kind = case["d"], case["n"], case["w"], case["kind"]
+    H = np.diag(case["L"])
+    ppp = np.array(case["ppp"])
+    for t in range(50):
+        pos = SC.dense_points(case["seed"], n, d, case["L"], tag=f"c13scale{t}_")
+        cnt, _, amb, nb = SC.weighted_hist(pos, H, ppp, w)
+        if not amb:
+            break
+    else:
+        return R.screen()
+    V = float(np.prod(case["L"]))
+    types = np.array([1 if (i * 7) % 20 < 13 else 2 for i in range(n)])  # 65 % species 1
+    sig = gsig(case, kind=kind, scale=True)
+    snap = mk_snap(pos, H, types)
+    if kind == "bool":
+        cond = types == 1
+        wfun = lambda i, j: (cond[i] & cond[j]).astype(float)
+        M = int(cond.sum())
+    elif kind == "float":
+        cond = np.array([[-1.0, 0.5, 2.0][(i * i + i // 3) % 3] for i in range(n)])
+        wfun = lambda i, j: cond[i] * cond[j]
+        M = n
+    elif kind == "complex":
+        cond = np.array([[1.0 + 0j, 1j, -1.0 + 2j][(i * i + i // 3) % 3] for i in range(n)], dtype=np.complex128)
+        wfun = lambda i, j: (cond[i] * np.conj(cond[j])).real
+        M = n
+    else:
+        e = np.eye(d)
+        letters = [e[0], -e[1], (e[0] + e[1]) / math.sqrt(2)]
+        cond = np.array([letters[(i * i + i // 3) % 3] for i in range(n)])
+        wfun = lambda i, j: (cond[i] * cond[j]).sum(axis=1)
+        M = n
+    cnt, ws, amb, nb = SC.weighted_hist(pos, H, ppp, w, wfun)
+    g_ref, r_ref = SC.gr_norm(cnt, n, n, V, w, d, True)
+    gA_ref, _ = SC.gr_norm(ws, M, M, V, w, d, True)
+    c0 = cond.copy()
+    res = conditional_gr(snap, cond, conditiontype=ctype(kind), ppp=ppp, rdelta=w)
+    if len(res) != nb or not near(res["r"].values, r_ref):
+        R.fail(f"{len(res)} bins / bin centres differ (expected {nb})", sig=dict(sig, clause="bins"))
+        return R
+    if not near(res["gr"].values, g_ref):
+        R.fail(f"N={n}: unconditional gr column differs from the pair histogram", sig=dict(sig, clause="gr_total"), exp=g_ref, obs=res["gr"].values)
+    if not near(res["gA"].values, gA_ref):
+        R.fail(f"N={n}, width {w}: gA differs from the weighted pair histogram (largest per-bin pair count {int(cnt.max())})",
+               sig=dict(sig, clause="gA"), exp=gA_ref, obs=res["gA"].values)
+    if kind == "bool":
+        G = gr(mk_snaps([pos], H, types), ppp=ppp, rdelta=w).getresults()
+        if not near(res["gA"].values, G["gr11"].values):
+            R.fail(f"N={n}: boolean selection of species 1 != gr11 of gr()", sig=dict(sig, clause="reduce_partial"), exp=G["gr11"].values, obs=res["gA"].values)
+        if not near(G["gr"].values, g_ref):
+            R.fail(f"N={n}: total of gr() differs from the pair histogram", sig=dict(sig, clause="gr_total_gr"))
+    if not np.array_equal(cond, c0):
+        R.fail("condition array modified", sig=dict(sig, clause="input_modified"))
+    R.outcome(np.round(res["gA"].values, 7))
+    R.elem = 3 * nb
+    R.nontrivial = bool(cnt.max() > 65535 and (cnt > 0).sum() >= 2)
+    return R
+
+
 # --------------------------------------------------------------------------------------- subs
 def subs(tier, seed):
     out = []
@@ -585,6 +658,11 @@ def subs(tier, seed):
     out.append(Sub("C13.gr.vector_sum", gen_gr_vsum, run_gr_vsum,
                    rule="every assignment of the real / complex vector alphabets: gA(vector) == sum_c gA(component c as scalar); "
                         "every float assignment a: gA(tensor a_i I) == d * gA(scalar a)  (reported as C13.gr.tensor_scalar)"))
+    out.append(Sub("C13.gr.scale", gen_scale, run_scale,
+                   rule="dense configurations (N = 900 / 1000" + ("" if tier == "quick" else " / 1400") + " particles, bin width 1.5 / 1.0: a particle has > 255 partners in one bin, "
+                        "a bin holds > 65 535 pairs) x {bool, float, complex, vector} x {periodic, x-only}: gr, gA against a vectorised weighted pair "
+                        "histogram; boolean selection == gr11 of gr(); non-trivial = a bin with > 65 535 pairs",
+                   bounds={"N": [900, 1000] + ([] if tier == "quick" else [1400])}))
     for kind in SQ_KINDS:
         out.append(Sub(f"C13.sq.{kind}", functools.partial(gen_sq_kind, kind), run_sq_kind,
                        rule=f"conditional_sq, condition kind {kind}: one case = (2D/3D, Lx=Ly / unequal box, placement of N=3..{nmax}, "
